@@ -6,7 +6,7 @@ The executor forks on these; the spec evaluator requires them to be absent / ign
 Concrete Python values are represented by themselves.
 """
 import z3
-from .sorts import (HeapRef, Sym, SInt, SBool, SBytes, SStr, SVal, SVL, SF64, Val, VL, Bytes, Int, Bool, F64,
+from .sorts import (HeapRef, Sym, SReal, SInt, SBool, SBytes, SStr, SVal, SVL, SF64, Val, VL, Bytes, Int, Bool, F64,
                     seq_lit, fresh, typeof, type_id, TYPE_ID, wrap_sort)
 
 
@@ -48,6 +48,23 @@ def zseq(x):
     if isinstance(x, (bytes, str)):
         return seq_lit(x)
     raise Unsupported("not a bytes/str: %r" % (x,))
+
+
+def is_reallike(x):
+    return isinstance(x, SReal) or (isinstance(x, float)) or is_intlike(x)
+
+
+def zreal(x):
+    if isinstance(x, SReal):
+        return x.z
+    if isinstance(x, float):
+        return z3.RealVal(repr(x))
+    return z3.ToReal(zint(x))
+
+
+def r2v(z):
+    z = z3.simplify(z)
+    return SReal(z)
 
 
 def is_intlike(x):
@@ -168,6 +185,8 @@ def truth(x):
         return x.z
     if isinstance(x, SInt):
         return x.z != 0
+    if isinstance(x, SReal):
+        return x.z != 0
     if isinstance(x, (SBytes, SStr)):
         return z3.Length(x.z) > 0
     if isinstance(x, SVal):
@@ -230,6 +249,11 @@ def binop(op, a, b):
             raise Unsupported("binop %s" % type(op).__name__)
         except Exception as e:
             return None, [(type(e), TRUE)]
+    if (isinstance(a, SReal) or isinstance(b, SReal)) and is_reallike(a) and is_reallike(b):
+        if isinstance(op, ast.Add):
+            return r2v(zreal(a) + zreal(b)), []
+        if isinstance(op, ast.Sub):
+            return r2v(zreal(a) - zreal(b)), []
     if isinstance(op, ast.Add):
         if is_intlike(a) and is_intlike(b):
             return i2v(zint(a) + zint(b)), []
@@ -292,6 +316,8 @@ def eq(a, b):
         return val_eq(s.z, to_val(o))
     if is_intlike(a) and is_intlike(b):
         return zint(a) == zint(b)
+    if (isinstance(a, SReal) or isinstance(b, SReal)) and is_reallike(a) and is_reallike(b):
+        return zreal(a) == zreal(b)
     if same_kind_seq(a, b):
         return zseq(a) == zseq(b)
     if isinstance(a, tuple) and isinstance(b, tuple):
@@ -336,6 +362,10 @@ def compare(op, a, b):
         if isinstance(op, ast.IsNot):
             r = (not r) if isinstance(r, bool) else z3.Not(r)
         return b2v(r), []
+    if isinstance(op, (ast.Lt, ast.LtE, ast.Gt, ast.GtE)) and (isinstance(a, SReal) or isinstance(b, SReal)) \
+            and is_reallike(a) and is_reallike(b):
+        x, y = zreal(a), zreal(b)
+        return b2v({ast.Lt: x < y, ast.LtE: x <= y, ast.Gt: x > y, ast.GtE: x >= y}[type(op)]), []
     if isinstance(op, (ast.Lt, ast.LtE, ast.Gt, ast.GtE)):
         if is_intlike(a) and is_intlike(b):
             x, y = zint(a), zint(b)
